@@ -41,6 +41,26 @@ Example C02_nonvacuous :
   close_chunk (Open SFired) [] = false.
 Proof. repeat split. Qed.
 
+(* ---- app stage: the executable judgement of coq/Check is sound for the model on every scenario of the profile, and transfers
+   to every trace that agrees with the model's run ---- *)
+From BEI Require Check.C02c Proofs.JudgeC02P.
+Theorem C02_app_judgement_sound : forall sc, JudgeC02P.profile_C02b sc = true -> C02c.ok (sc, App.trace (App.run sc)) = 0%Z.
+Proof. exact JudgeC02P.C02_app_judgement_sound. Qed.
+
+Theorem C02_app_judgement_transfer : forall sc t, JudgeC02P.profile_C02b sc = true -> App.agree_full (sc, t) = true -> C02c.ok (sc, t) = 0%Z.
+Proof. exact JudgeC02P.C02_app_judgement_transfer. Qed.
+
+
+(* ---- app stage: the executable judgement of coq/Check is sound for the model on every scenario of the profile, and transfers
+   to every trace that agrees with the model's run ---- *)
+From BEI Require Check.C02r Proofs.JudgeC02rP Proofs.JudgeC02rWideP.
+Theorem C02_reactions_judgement_sound : forall p, JudgeC02rWideP.profile_C02r_wideb p = true -> C02r.ok (p, JudgeC02rP.model_r p) = 0%Z.
+Proof. exact JudgeC02rWideP.C02r_app_judgement_sound_wide. Qed.
+
+Theorem C02_reactions_judgement_transfer : forall p t, JudgeC02rWideP.profile_C02r_wideb p = true -> C02r.agree (p, t) = true -> C02r.ok (p, t) = 0%Z.
+Proof. exact JudgeC02rWideP.C02r_app_judgement_transfer_wide. Qed.
+
+
 Print Assumptions C02_history_wellformed.
 Print Assumptions C02_one_frame.
 Print Assumptions C02_removal_closes.
@@ -163,3 +183,7 @@ Proof. exact join_side_condition_needed. Qed.
 Print Assumptions C02_world_reactions_frame.
 Print Assumptions C02_world_reactions_history.
 Print Assumptions C02_join_side_condition_needed.
+Print Assumptions C02_app_judgement_sound.
+Print Assumptions C02_app_judgement_transfer.
+Print Assumptions C02_reactions_judgement_sound.
+Print Assumptions C02_reactions_judgement_transfer.
